@@ -205,7 +205,20 @@ class SymStr(SymStrBase):
                 return False
             return all(self.is_char(c, ord(k)) for c, k in zip(self.cs, o))
         if isinstance(o, SymStr):
-            return self.concretize() == o.concretize()
+            if len(o.cs) != len(self.cs):
+                return False
+            for a, b in zip(self.cs, o.cs):
+                if isinstance(a, int) and isinstance(b, int):
+                    if a != b:
+                        return False
+                elif isinstance(a, int) or isinstance(b, int):
+                    c, k = (b, a) if isinstance(a, int) else (a, b)
+                    if not self.is_char(c, k):
+                        return False
+                elif not z3.eq(a, b):
+                    if not C.cur().branch(a == b):
+                        return False
+            return True
         return NotImplemented
 
     def __ne__(self, o):
@@ -213,6 +226,13 @@ class SymStr(SymStrBase):
         return r if r is NotImplemented else not r
 
     def __hash__(self):
+        # opt sym_hash: symbolic strings hash alike and dict lookups fall through to __eq__
+        # (character-wise solver-decided equality); a symbolic key then never meets a LITERAL
+        # str key (different hash) - harnesses that set the option do not mix the two
+        if all(isinstance(c, int) for c in self.cs):
+            return hash("".join(chr(c) for c in self.cs))  # consistent with str keys
+        if C.cur().opts.get("sym_hash"):
+            return 0x5A
         return hash(self.concretize())
 
     def __repr__(self):
